@@ -193,7 +193,18 @@ def isElemItem : CItem → Bool
   | .elem .. => true
   | _ => false
 
-def CDoc.ok (d : CDoc) : Bool := d.decl.isNone && d.before.all okMisc && isElemItem d.root && okItem d.root && d.after.all okMisc
+def isWsMisc : CMisc → Bool
+  | .ws _ => true
+  | _ => false
+
+/-- two runs of white space next to each other would be read as one -/
+def adjWs : List CMisc → Bool
+  | [] => false
+  | m :: r => (isWsMisc m && (match r with | j :: _ => isWsMisc j | [] => false)) || adjWs r
+
+def CDoc.ok (d : CDoc) : Bool :=
+  d.decl.isNone && d.before.all okMisc && !adjWs d.before && isElemItem d.root && okItem d.root &&
+  d.after.all okMisc && !adjWs d.after
 
 /-! ### nesting depth of elements -/
 mutual
